@@ -14,7 +14,7 @@ package hashprefix
 //vx:stub time.Now vxC19Now
 //vx:note SHA-256 is an uninterpreted function (fresh symbolic 32-byte value per distinct input, so collisions of prefixes and of whole hashes between different names and with database entries are inside); the public-suffix table is a stub returning the last k labels (k in 1..min(labels,4)) and a symbolic ICANN bit; names: labels of 1..2 symbolic ASCII bytes other than '.'
 //vx:note lookup service = harness fake holding a database D of full hashes (bytes 0,1,31 symbolic in quick; 0,1,2,16,31 in thorough; the names' own hashes are symbolic in all 32 bytes); it answers exactly the members of D whose 2-byte prefix was asked, in lower-case hex, as one TXT RR per hash or all in one RR, next to a non-TXT RR and possibly one malformed string (64 characters with one non-hex character, 62 characters, 128 characters)
-//vx:note Names entry: every shape of name of 1..6 (thorough 1..8) labels, |D| = 1.  Verdict entry: name with 3 (thorough 4) hashed names, |D| = 2 (thorough 3), every kind of malformed string.  Both: one check against a cache that holds nothing
+//vx:note Names entry: every shape of name of 1..6 (thorough 1..8) labels, |D| = 1.  Verdict entry: name with 3 hashed names, |D| = 2, every kind of malformed string (thorough: also 4 hashed names with |D| = 3).  Both: one check against a cache that holds nothing
 //vx:note Cache entry: 2 checks (one thorough scenario: 3) sharing a cache fake that never evicts; clock = stub of time.Now, constant within one Check, seconds and nanoseconds symbolic, advancing by a symbolic amount (<= 4 days) between checks; cache time 10 min (thorough scenarios also 0, 1 s, 30 min); the database is replaced by an arbitrary new one exactly when the clock has passed the previous check's time + cache time (every entry that check wrote or used has expired by then), otherwise it stays.  quick: one-label name then the same name or a child, two database hashes sharing their prefix; thorough: six scenarios adding parent / sibling / unrelated names, unrelated database prefixes, a third check
 //vx:note outside: SHA-256 itself, the public-suffix table (ICANN suffixes longer than 4 labels do not exist), cache eviction, upstream errors, upper-case hex in answers, a service that answers hashes that were not asked for, fractional cache times, concurrent checks
 
@@ -437,13 +437,20 @@ func vxC19Names() {
 	vxC19One(labels, svc)
 }
 
-// vxC19Verdict: a name with three (thorough: four) hashed names against every
-// database of 0..2 (thorough 3) hashes and every kind of malformed string.
+// vxC19Verdict: a name with three hashed names against a database of two
+// hashes (a hash that is not asked for has no effect, so smaller databases are
+// included) and every kind of malformed string.  thorough: also the non-hex
+// character at four positions, and a name with four hashed names (five
+// labels) against three hashes.
 func vxC19Verdict() {
 	vxC19Reset()
-	n, maxDB := 3, 2
+	n, dbsize, kinds := 3, 2, 4
+	positions := []int{62}
 	if vx.Thorough() {
-		n, maxDB = 5, 3
+		positions = []int{62, 0, 1, 63}
+		if vx.Choice("wide", 2) == 1 {
+			n, dbsize, kinds = 5, 3, 1
+		}
 	}
 	labels := make([]string, n)
 	for i := range labels {
@@ -452,27 +459,16 @@ func vxC19Verdict() {
 	vxC19Suffix.labels = 1
 	vxC19Suffix.icann = false
 	svc := &vxC19Service{suffix: "sb.dns.adguard.com."}
-	// a database of two hashes neither of which is asked for behaves like a
-	// smaller one: quick uses two only
-	dbsize := maxDB
 	svc.setDB("db", dbsize)
-	if vx.Thorough() {
-		kind := vx.Choice("bad", 4)
-		svc.layout = kind % 2
-		if kind > 0 {
-			pos := 0
-			if kind == 1 {
-				pos = []int{0, 1, 62, 63}[vx.Choice("badpos", 4)]
-			}
-			svc.hasBad, svc.bad = true, vxC19Bad(kind, pos)
+	// none / non-hex character / too short / too long
+	kind := vx.Choice("bad", kinds)
+	svc.layout = kind % 2
+	if kind > 0 {
+		pos := 0
+		if kind == 1 {
+			pos = positions[vx.Choice("badpos", len(positions))]
 		}
-	} else {
-		// none / non-hex character / too short / too long
-		kind := vx.Choice("bad", 4)
-		svc.layout = kind % 2
-		if kind > 0 {
-			svc.hasBad, svc.bad = true, vxC19Bad(kind, 62)
-		}
+		svc.hasBad, svc.bad = true, vxC19Bad(kind, pos)
 	}
 	vxC19One(labels, svc)
 }
